@@ -257,6 +257,7 @@ pub fn fault_alphabet(prop: &str, n: usize, len: usize) -> Vec<(Act, Vec<FaultKi
             for m in 0..=2 * n + 1 {
                 v.push((ExtendFromSlice(m), d.clone()));
                 v.push((Extend(m), d.clone()));
+                v.push((ExtendPairs(m), d.clone()));
             }
             for m in 0..=n {
                 v.push((CloneFrom(m, 0), d.clone()));
@@ -296,6 +297,7 @@ pub fn fault_alphabet(prop: &str, n: usize, len: usize) -> Vec<(Act, Vec<FaultKi
                 v.push((Extend(m), vec![K::IterNext]));
                 v.push((ExtendHint(m, 0), vec![K::IterNext]));
                 v.push((ExtendHint(m, 2), vec![K::IterNext]));
+                v.push((ExtendPairs(m), vec![K::IterNext]));
             }
             v.push((Fill, vec![K::Clone]));
             v.push((FillSpare, vec![K::Clone]));
@@ -386,9 +388,7 @@ pub fn fault_check<const N: usize>(prop: &str, o: &Opts, rep: &mut Report) {
     // constructors that run user code / destructors
     if o.shard.0 == 0 {
         ctor_faults::<N>(prop, rep);
-        if prop != "C10" {
-            crate::zst::zst_twin::<N>(prop, rep);
-        }
+        crate::zst::zst_twin::<N>(prop, rep);
     }
 
     /// Is the state right after the deviation one of the states whose whole future the fault-free
